@@ -221,4 +221,62 @@ class TwoDeviations(object):
         return run(case, 'C07|two-deviations')
 
 
-FAMILIES = [NoDeviation(), OneDeviation(), TwoDeviations()]
+class FailureAndRepair(object):
+    case_timeout = 10
+    name = 'failure-plus-second-deviation'
+    describe = ('quick-tier slice of the pair space: a failure on one module (absent, reader error, syntax error, symbol-table, code '
+                'generation, writer error) combined with a borrower answer, a second failure, a fresh searcher answer or a writer '
+                'error on either module; A imports B; all requests; all 64 option vectors')
+
+    def blocks(self, tier):
+        fails = [{'src': {'%s0': 'notfound'}}, {'src': {'%s0': 'error'}}, {'text': {'%s': 'synerr'}}, {'symerr': ['%s']},
+                 {'generr': ['%s']}, {'wrerr': ['%s']}]
+        out = []
+        for fi in range(len(fails)):
+            for m1 in 'AB':
+                for part in range(6):
+                    out.append({'f': fi, 'm1': m1, 'part': part})
+        return out
+
+    def _fail(self, fi, m):
+        import json
+        fails = [{'src': {'%s0': 'notfound'}}, {'src': {'%s0': 'error'}}, {'text': {'%s': 'synerr'}}, {'symerr': ['%s']},
+                 {'generr': ['%s']}, {'wrerr': ['%s']}]
+        return json.loads(json.dumps(fails[fi]).replace('%s', m))
+
+    def cases(self, block, tier):
+        first = self._fail(block['f'], block['m1'])
+        seconds = []
+        for m2 in 'AB':
+            for idx in (0, 1):
+                b = [{'texts': False, 'ans': {}}, {'texts': True, 'ans': {}}]
+                b[idx]['ans'][m2] = 'has'
+                seconds.append({'borrowers': b})
+            seconds.append({'searchers': [{'ans': {m2: 'fresh'}}]})
+            for fi in range(6):
+                seconds.append(self._fail(fi, m2))
+        for si, sec in enumerate(seconds):
+            if si % 6 != block['part']:
+                continue
+            dev = merge(first, sec)
+            if dev is None:
+                continue
+            for req in requests(2):
+                for o in option_vectors(True):
+                    yield make_world(2, [['A', 'B']], req, dev, o)
+            if 'borrowers' in sec:
+                # three deviations: the failure, a borrower answer, and a second failure on the other module
+                other = 'B' if block['m1'] == 'A' else 'A'
+                for fi in range(6):
+                    dev3 = merge(dev, self._fail(fi, other))
+                    if dev3 is None:
+                        continue
+                    for req in requests(2):
+                        for o in option_vectors(False):
+                            yield make_world(2, [['A', 'B']], req, dev3, o)
+
+    def run_case(self, case):
+        return run(case, 'C07|failure-plus')
+
+
+FAMILIES = [NoDeviation(), OneDeviation(), TwoDeviations(), FailureAndRepair()]
